@@ -347,6 +347,9 @@ pub fn install_quiet_panic_hook() {
         } else {
             "panic".to_string()
         };
+        if std::env::var("VERIF_BACKTRACE").is_ok() {
+            eprintln!("panic: {} at {}\n{}", msg, loc, std::backtrace::Backtrace::force_capture());
+        }
         LAST_PANIC.with(|c| *c.borrow_mut() = format!("{} at {}", msg, loc));
     }));
 }
